@@ -50,11 +50,14 @@ def django_bases(env):
 
 def sa_bases(env, style):
     sa = env["sa"]; P, O, W, K = env["P"], env["O"], env["W"], env["K"]
+    from sqlalchemy.orm import aliased
+    PA = aliased(P)
     if style == "legacy":
         q = lambda: oc.sa_session().query(P)
         return [("query", q, None), ("pre-filtered", lambda: q().filter(P.a >= 0), None), ("pre-joined P.o (used)", lambda: q().join(P.o), "join:o"),
                 ("pre-joined outer P.o", lambda: q().outerjoin(P.o), "join:o"), ("pre-joined P.w (maybe unused)", lambda: q().outerjoin(P.w), "join:w"), ("pre-joined P.dept (natural key)", lambda: q().outerjoin(P.dept), None),
-                ("pre-joined P.o filtered on it", lambda: q().join(P.o).filter(O.n == 5), "join:o"), ("ordered desc", lambda: q().order_by(P.id.desc()), "order")]
+                ("pre-joined P.o filtered on it", lambda: q().join(P.o).filter(O.n == 5), "join:o"), ("ordered desc", lambda: q().order_by(P.id.desc()), "order"),
+                ("aliased root", lambda: oc.sa_session().query(PA), None), ("aliased root pre-filtered", lambda: oc.sa_session().query(PA).filter(PA.a >= 0), None)]
     if style == "core":
         t = P.__table__; ot = O.__table__; kt = K.__table__
         s = lambda: sa.select(t)
@@ -68,7 +71,9 @@ def sa_bases(env, style):
     return [("select", s, None), ("pre-filtered", lambda: s().where(P.a >= 0), None), ("pre-joined P.o (used)", lambda: s().join(P.o), "join:o"),
             ("pre-joined outer P.o", lambda: s().outerjoin(P.o), "join:o"), ("pre-joined P.w (maybe unused)", lambda: s().outerjoin(P.w), "join:w"),
             ("pre-joined P.o filtered on it", lambda: s().join(P.o).where(O.n == 5), "join:o"), ("ordered desc", lambda: s().order_by(P.id.desc()), "order"),
-            ("pre-joined W via P.w then W.o", lambda: s().outerjoin(P.w).outerjoin(W.o), "join:w")]
+            ("pre-joined W via P.w then W.o", lambda: s().outerjoin(P.w).outerjoin(W.o), "join:w"),
+            # the root entity is an ALIAS of the model (self-joins need one): names resolve against the alias the query selects from
+            ("aliased root", lambda: sa.select(PA), None), ("aliased root pre-filtered ordered", lambda: sa.select(PA).where(PA.a >= 0).order_by(PA.id.desc()), "order")]
 
 def single_child_db(db):
     """the same database with at most ONE kid and ONE tag per parent: navigating THROUGH such a collection (kids/x eq 2 - the backends join) then
